@@ -21,3 +21,8 @@ def yes(x: int) -> bool:
 
 def succ(x: int) -> int:
     return x + 1
+
+
+def blob(x: int) -> str:
+    """A result whose pickled form is larger than a pipe buffer (64 KiB)."""
+    return "pynguin " * 16384
